@@ -10,7 +10,7 @@
 Require Import Cherab.Common.Qx.
 From Coq Require Import String Qabs.
 From Coq Require Import Sorting.Sorted Permutation.
-Require Import Cherab.Model.C19_Registry Cherab.Proofs.C19_Registry Cherab.Proofs.C19_Deepen.
+Require Import Cherab.Model.C19_Registry Cherab.Model.C19_Shape Cherab.Model.C19_Args Cherab.Proofs.C19_Registry Cherab.Proofs.C19_Deepen.
 Local Open Scope Z_scope.
 
 (* every element is found by its name, its symbol and its atomic number (as a string in any letter
@@ -258,6 +258,23 @@ Theorem C19_species_dict_with_deletion_is_a_finite_map :
   /\ (forall v, dict_ok (fun o => In o (all_species r)) (dict_set khash ksame py_eq d k v)).
 Proof. intros r W khash ksame H1 H2 V d k Hd Hk. apply (species_dict_map r W khash ksame H1 H2 V d k Hd Hk). Qed.
 Print Assumptions C19_species_dict_with_deletion_is_a_finite_map.
+
+(* argument-validation policy (signatures regenerated from the source, Gen/C19/Shape.v): whatever Python
+   objects are passed, an Element is built only from two exact str, a value that converts to a C int and a
+   value that converts to a double; a Line only with 0 <= charge <= Z - 1; the intended calls succeed *)
+Theorem C19_constructor_argument_policy :
+  (forall args e, element_init_py args = Done e ->
+     in_int (e_Z e) = true /\ exists n s zv wv, args = [PStr n; PStr s; zv; wv] /\ e_name e = n /\ e_symbol e = s
+                                             /\ conv_int zv = Done (e_Z e) /\ conv_double wv = Done (e_weight e))
+  /\ (forall args l, line_init_py args = Done l ->
+      0 <= l_charge l <= species_Z (l_element l) - 1 /\ in_int (l_charge l) = true)
+  /\ (forall n s z w, in_int z = true -> element_init_py [PStr n; PStr s; PInt z; PFloat w] = Done (new_element n s z w))
+  /\ (forall n s el a w, in_int a = true ->
+      isotope_init_py [PStr n; PStr s; PSpecies (SE el); PInt a; PFloat w] = Done (new_isotope n s el a w)).
+Proof.
+  split; [exact element_init_sound | split; [exact line_init_sound | split; [exact element_init_complete | exact isotope_init_complete]]].
+Qed.
+Print Assumptions C19_constructor_argument_policy.
 
 (* non-vacuity: a two-element, three-isotope program that loads and is well-formed *)
 Local Open Scope string_scope.
